@@ -33,6 +33,17 @@ class IntegrateFacts:
             raise AnalysisError(f'_integrate: expected one loop calling {DENSITY_CALL}, found {len(loops)}')
         self.loop = loops[0]
         self.loop_head = self.cfg.node_of(self.loop.test)
+        # the loop's end test may also be spelled as leading `if <cond>: break` statements (`while True:` + a guard)
+        self.loop_controls = {self.loop_head}
+        for st_ in self.loop.body:
+            if isinstance(st_, ast.If) and not st_.orelse and len(st_.body) == 1 and isinstance(st_.body[0], ast.Break):
+                n_ = self.cfg.node_of(st_.test)
+                if n_ is not None:
+                    self.loop_controls.add(n_)
+                continue
+            if isinstance(st_, ast.Expr) and isinstance(st_.value, ast.Constant):
+                continue
+            break
         self.loop_nodes = {n.id for n in self.cfg.nodes if n.ast is not None and self._inside(n.ast, self.loop)}
         # row creation sites
         self.row_calls = [c for c in ast.walk(fn) if isinstance(c, ast.Call)
@@ -68,7 +79,7 @@ class IntegrateFacts:
         # the step's query: the one that runs on every iteration (not under a guard); further queries (a refresh
         # before a terminal row, say) are kept and must ask for the same altitude expression
         cdep = self.cfg.control_dependence()
-        uncond = [n for n in dens if all(self.cfg.nodes[t] is self.loop_head for t, _l in cdep[n.id])]
+        uncond = [n for n in dens if all(self.cfg.nodes[t] in self.loop_controls for t, _l in cdep[n.id])]
         self.density_node = (uncond or dens)[0]
         self.density_nodes = dens
         names = set()
@@ -303,7 +314,7 @@ class LimitBlock:
             seen.add(cur)
             for t, _l in cd[cur]:
                 n = F.cfg.nodes[t]
-                if n is F.loop_head or not F.in_loop(n):
+                if n in F.loop_controls or not F.in_loop(n):
                     continue
                 if n.ast is not None and any(n.ast is x or F._inside(n.ast, st) for st in self.stmts for x in [st]):
                     tests.add(t)
